@@ -6,11 +6,21 @@ def _nontrivial(op, out):
     return out.startswith("rows ") and not out.startswith("rows 0")
 
 
+def _corr_skip(op, impl, model):
+    # the ORDER of the printed rows is the oracle's business (it checks sortedness whenever the query orders its result); an
+    # inner ORDER BY does not order the outer query, and the engine's order among rows tied on the inner keys depends on which
+    # columns the optimizer pruned. The correspondence compares the printed rows as a bag.
+    if not (impl.startswith("rows ") and model.startswith("rows ")):
+        return False
+    return sorted(impl.split(" | ")) == sorted(model.split(" | "))
+
+
 PROP = dict(
     lean_modules=["Octo.Props.C01"],
     required_theorems=["Octo.C01.C01_denote_sound", "Octo.C01.denoteNested_sound", "Octo.C01.blockCore_spec", "Octo.C01.orderLimitEager_spec", "Octo.C01.block_table_sound"],
     needs_binary=True,
     nontrivial=_nontrivial,
+    corr_skip=_corr_skip,
     rule="type-directed generator (harness/sqlgen.go): tables of 1-4 columns (Int/Float/String/Boolean, NULL-heavy, duplicates, "
          "MinInt64/MaxInt64) in CSV or JSON-lines, queries of nesting depth 1-3 with WHERE (3-valued boolean trees, comparisons, "
          "wrapping + - *), projections, DISTINCT, ORDER BY (ASC/DESC, 1-2 keys), LIMIT; run through the real octosql binary in all "
